@@ -390,7 +390,11 @@ func (x *Exec) assumeTypeFacts(st *State, v Val, t types.Type) {
 		st.assume(Implies(Eq(i.Tag, IntC(0)), Eq(i.Ref, IntC(0))))
 		// pointer-shaped dynamic types that are known to the program are never nil-boxed
 		// (no: a typed nil pointer may be boxed; we do not assume it)
-		if impl := x.implementers(t); impl != nil {
+		if inModuleType(t) {
+			// module interfaces never box a nil pointer (asserted where a pointer is boxed)
+			st.assume(Implies(Ne(i.Tag, IntC(0)), Ne(i.Ref, IntC(0))))
+		}
+		if impl := x.implementers(t); impl != nil && inModuleType(t) {
 			var alts []*T
 			alts = append(alts, Eq(i.Tag, IntC(0)))
 			for _, id := range impl {
@@ -438,10 +442,16 @@ func (st *State) heapArr(key string, s Sort) *T {
 		return a
 	}
 	var a *T
-	if st.epoch == 0 {
+	last := 0
+	for i, ev := range st.events {
+		if ev == "*" || strings.HasPrefix(key, ev) {
+			last = i + 1
+		}
+	}
+	if last == 0 {
 		a = Sym("H0!"+key, s)
 	} else {
-		a = Sym(fmt.Sprintf("He%d!%s", st.epoch, key), s)
+		a = Sym(fmt.Sprintf("He%d!%s", last, key), s)
 	}
 	st.heap[key] = a
 	return a
@@ -484,6 +494,9 @@ func (x *Exec) loadPtr(st *State, p *PtrV) Val {
 		if p.Path == "" {
 			return v
 		}
+		if _, ok := v.(*StructV); !ok {
+			return x.freshVal(st, p.Typ, "opq")
+		}
 		return x.structPath(v, p.Cell.typ, p.Path)
 	case PObj:
 		if _, isStruct := t.Underlying().(*types.Struct); isStruct && !isOpaqueStruct(t) {
@@ -511,6 +524,27 @@ func (x *Exec) loadPtr(st *State, p *PtrV) Val {
 	}
 	v, _ := x.unflatten(t, ts)
 	x.assumeLoaded(st, v, t)
+	// declared non-nil invariants (assumed on load, asserted on store)
+	switch p.Kind {
+	case PElem:
+		if p.Path == "" && x.nnElems[typeKey(p.ElemT)] {
+			st.assume(nonNilVal(v))
+		}
+	case PField:
+		if x.nnFields[structName(p.Owner)+"."+p.Path] {
+			st.assume(nonNilVal(v))
+		}
+	case PObj:
+		if stt, ok := t.Underlying().(*types.Struct); ok && !isOpaqueStruct(t) {
+			if sv, ok := v.(*StructV); ok {
+				for i := 0; i < stt.NumFields(); i++ {
+					if x.nnFields[structName(t)+"."+stt.Field(i).Name()] {
+						st.assume(nonNilVal(sv.F[i]))
+					}
+				}
+			}
+		}
+	}
 	return v
 }
 
@@ -636,4 +670,9 @@ func (x *Exec) valIte(c *T, a, b Val, t types.Type) Val {
 	}
 	v, _ := x.unflatten(t, ts)
 	return v
+}
+
+func inModuleType(t types.Type) bool {
+	n, ok := t.(*types.Named)
+	return ok && n.Obj().Pkg() != nil && strings.HasPrefix(n.Obj().Pkg().Path(), modulePath)
 }
